@@ -919,6 +919,22 @@ fn gen_include_graph(rng: &mut Rng) -> Files {
                     continue;
                 }
             }
+            if pick >= 42 && pick < 48 {
+                // a conditional group that is not processed (the name is never defined) with directives inside: they have no
+                // effect; or the same group under #ifndef, which is processed
+                let taken = rng.chance(1, 3);
+                lines.push(format!("#{} NEVER_DEFINED_{}", if taken { "ifndef" } else { "ifdef" }, i));
+                lines.push(if rng.chance(1, 2) { "#undef V".to_string() } else { format!("#define V skipped{}_{}", i, l) });
+                if rng.chance(1, 2) {
+                    lines.push(format!("s{}_{} V ;", i, l));
+                }
+                if rng.chance(1, 3) {
+                    lines.push("#else".into());
+                    lines.push(format!("#define W(x) e{} x", i));
+                }
+                lines.push("#endif".into());
+                continue;
+            }
             if pick < 60 {
                 // visible text naming file and line
                 lines.push(format!("t{}_{} ;", i, text_n));
@@ -936,6 +952,13 @@ fn gen_include_graph(rng: &mut Rng) -> Files {
         }
         if once_at != usize::MAX && once_at >= nlines {
             lines.push("#pragma once".into());
+        }
+        // a header without #pragma once is sometimes protected by a classic include guard instead: its second inclusion is a group
+        // that is not processed, whatever directives it contains
+        if i > 0 && once_at == usize::MAX && rng.chance(1, 2) {
+            lines.insert(0, format!("#define GUARD_H{}", i));
+            lines.insert(0, format!("#ifndef GUARD_H{}", i));
+            lines.push("#endif".into());
         }
         let mut s = lines.join("\n");
         s.push('\n');
